@@ -343,3 +343,178 @@ func meshBaseOfLength(v ssa.Value, modelingPath string) ssa.Value {
 	}
 	return nil
 }
+
+// RENUM-1 — a renumber table (a local []int whose elements are filled from a running count) hands out new
+//           vertex ids. Its numbering order must be the order in which the attribute arrays are compacted:
+//             * "prefix" tables are filled in a sequential scan (the store index is the counter of the very loop
+//               that carries the count), so new ids follow vertex order — the order of the sequential compaction
+//               loops (gather index = loop counter, decided by the IDX rules);
+//             * a table filled at the position of a vertex id read from elsewhere (first-reference order) is
+//               consistent only when the attribute data of that very vertex is emitted at the same moment.
+type RenumSite struct {
+	Fn     *ssa.Function
+	Store  *ssa.Store
+	OK     bool
+	Class  string
+	Detail string
+}
+
+// accumulators: header phis of l that depend on themselves through +const and are not the loop's exit counter.
+func accumulatorsOf(l *ssau.Loop) map[*ssa.Phi]bool {
+	out := map[*ssa.Phi]bool{}
+	exitDeps := map[ssa.Value]bool{}
+	if n := len(l.Header.Instrs); n > 0 {
+		if ifi, ok := l.Header.Instrs[n-1].(*ssa.If); ok {
+			for d := range backward(ifi.Cond, false) {
+				exitDeps[d] = true
+			}
+		}
+	}
+	// rotated loops test at the latch
+	for _, lb := range l.Latch {
+		if n := len(lb.Instrs); n > 0 {
+			if ifi, ok := lb.Instrs[n-1].(*ssa.If); ok {
+				for d := range backward(ifi.Cond, false) {
+					exitDeps[d] = true
+				}
+			}
+		}
+	}
+	for _, in := range l.Header.Instrs {
+		phi, ok := in.(*ssa.Phi)
+		if !ok {
+			break
+		}
+		if b, ok := phi.Type().Underlying().(*types.Basic); !ok || b.Info()&types.IsInteger == 0 {
+			continue
+		}
+		if exitDeps[phi] {
+			continue
+		}
+		// self-dependence through phis and +const only
+		seen := map[ssa.Value]bool{}
+		self := false
+		var walk func(v ssa.Value, d int)
+		walk = func(v ssa.Value, d int) {
+			if d > 12 || seen[v] {
+				return
+			}
+			seen[v] = true
+			switch x := v.(type) {
+			case *ssa.Phi:
+				if x == phi && d > 0 {
+					self = true
+					return
+				}
+				if x != phi && !l.Blocks[x.Block()] {
+					return
+				}
+				for _, e := range x.Edges {
+					if e == phi {
+						if d > 0 || x != phi {
+							self = true
+						}
+						continue
+					}
+					walk(e, d+1)
+				}
+			case *ssa.BinOp:
+				if x.Op == token.ADD {
+					if _, ok := ssau.ConstInt(x.Y); ok {
+						if x.X == phi {
+							self = true
+							return
+						}
+						walk(x.X, d+1)
+					}
+				}
+			}
+		}
+		for _, e := range phi.Edges {
+			walk(e, 1)
+		}
+		if self {
+			out[phi] = true
+		}
+	}
+	return out
+}
+
+func Renumbers(fns []*ssa.Function) []RenumSite {
+	var out []RenumSite
+	for _, fn := range fns {
+		loops := ssau.Loops(fn)
+		if len(loops) == 0 {
+			continue
+		}
+		ssau.AllInstrs(fn, func(in ssa.Instruction) {
+			st, ok := in.(*ssa.Store)
+			if !ok {
+				return
+			}
+			ia, ok := st.Addr.(*ssa.IndexAddr)
+			if !ok || !isIntSlice(ia.X.Type()) {
+				return
+			}
+			local := false
+			for r := range aliasRoots(ia.X) {
+				if _, ok := r.(*ssa.MakeSlice); ok {
+					local = true
+				}
+			}
+			if !local {
+				return
+			}
+			// which loop's accumulator feeds the stored value?
+			var L *ssau.Loop
+			var acc *ssa.Phi
+			deps := backward(st.Val, true)
+			for _, l := range loops {
+				if !l.Blocks[st.Block()] {
+					continue
+				}
+				for a := range accumulatorsOf(l) {
+					if deps[a] && (L == nil || len(l.Blocks) < len(L.Blocks)) {
+						L, acc = l, a
+					}
+				}
+			}
+			if L == nil {
+				return
+			}
+			// the value must be the count itself (possibly ±const), not a product of lookups
+			if _, isRead := readOf(st.Val); isRead {
+				return
+			}
+			_ = acc
+			if phi, _ := counterOf(ia.Index, L); phi != nil {
+				out = append(out, RenumSite{Fn: fn, Store: st, OK: true, Class: "prefix", Detail: "renumber table filled from a running count in a sequential scan (store index = the loop counter): new ids follow vertex order, the order of the sequential compaction"})
+				return
+			}
+			// first-reference numbering: consistent only if the vertex's data is emitted at the same moment
+			emitted := false
+			for b := range L.Blocks {
+				if !st.Block().Dominates(b) && b != st.Block() {
+					continue
+				}
+				for _, i2 := range b.Instrs {
+					c, ok := i2.(*ssa.Call)
+					if !ok || ssau.Builtin(c) != "append" {
+						continue
+					}
+					for d := range backward(c.Call.Args[1], false) {
+						if rd, ok := readOf(d); ok && sameSource(rd.idx, ia.Index) {
+							emitted = true
+						}
+					}
+				}
+			}
+			if emitted {
+				out = append(out, RenumSite{Fn: fn, Store: st, OK: true, Class: "first-reference", Detail: "ids handed out in first-reference order and the vertex's attribute data is emitted at that moment"})
+			} else {
+				out = append(out, RenumSite{Fn: fn, Store: st, OK: false, Class: "first-reference", Detail: "the renumber table hands out new ids in the order vertices are first referenced (store index is a value read from elsewhere, not the counter of the counting loop), but no attribute data is emitted at that moment: the attribute arrays are compacted in another (vertex) order, so the new indices point at the wrong vertices"})
+			}
+		})
+	}
+	return out
+}
